@@ -67,6 +67,20 @@ def lastEffectiveMove (db : DB) (l a x : String) (d : Int) : Option MovesRow :=
       (Val.le r.effective_date (.ts d)))
     [{ get := fun r => r.effective_date, desc := true }, { get := fun r => r.seq, desc := true }]
 
+/-- the point-in-time read by insertion date: among the rows with `insertion_date ≤ t`, the one with the greatest `seq` — what
+`get_all_account_volumes(_before)` and `GetAggregatedBalances` (with a PIT) pick, to read `post_commit_volumes` -/
+def lastMoveAsOf (db : DB) (l a x : String) (t : Int) : Option MovesRow :=
+  selectFirst db.moves (fun r => Val.and (Val.and (Val.and (Val.eq r.ledger (tText l)) (Val.eq r.account_address (tText a))) (Val.eq r.asset (tText x)))
+      (Val.le r.insertion_date (.ts t)))
+    [{ get := fun r => r.seq, desc := true }]
+
+/-- the MIXED read: rows cut on `effective_date ≤ t`, the latest BY SEQ (to read `post_commit_volumes`, the insertion-order totals) —
+what `get_account_balance(_before)` does (DESIGN §6 #22) and what a `GetAggregatedBalances` filtering its PIT on `effective_date` would do -/
+def lastMoveDatedBySeq (db : DB) (l a x : String) (t : Int) : Option MovesRow :=
+  selectFirst db.moves (fun r => Val.and (Val.and (Val.and (Val.eq r.ledger (tText l)) (Val.eq r.account_address (tText a))) (Val.eq r.asset (tText x)))
+      (Val.le r.effective_date (.ts t)))
+    [{ get := fun r => r.seq, desc := true }]
+
 def volPair (i o : Nat) : Val := .vol (.int i) (.int o)
 
 def pairs (ms : List Move) : List (String × String) := (ms.map (fun m => (m.account, m.asset))).eraseDups
